@@ -63,6 +63,29 @@ def hygiene():
     return bad
 
 
+def dependencies():
+    """file -> project files it depends on (from coqdep)."""
+    files = project_files()
+    p = subprocess.run(["coqdep", "-Q", ".", "LBFGSB"] + files, cwd=COQ, stdout=subprocess.PIPE, stderr=subprocess.DEVNULL, text=True)
+    deps = {f: [] for f in files}
+    for line in p.stdout.splitlines():
+        if ":" not in line:
+            continue
+        lhs, rhs = line.split(":", 1)
+        tgt = [t for t in lhs.split() if t.endswith(".vo")]
+        if not tgt:
+            continue
+        f = tgt[0][:-3] + ".v"
+        f = f[2:] if f.startswith("./") else f
+        for d in rhs.split():
+            if d.endswith(".vo"):
+                d = d[:-3] + ".v"
+                d = d[2:] if d.startswith("./") else d
+                if d in deps and f in deps and d != f:
+                    deps[f].append(d)
+    return deps
+
+
 class Lock:
     def __enter__(self):
         os.makedirs(WORK, exist_ok=True)
@@ -96,6 +119,20 @@ def build(force=False, jobs=16, timeout=3000):
         f, line, msg = m.group(1), m.group(2), m.group(3)
         if "Error" in msg and f not in failed:
             failed[f] = f"line {line}: " + " ".join(msg.split())[:400]
+    # a file whose dependency failed keeps its old .vo: remove it and report the file as not compiled
+    if failed:
+        deps = dependencies()
+        changed = True
+        while changed:
+            changed = False
+            for f, ds in deps.items():
+                if f not in failed and any(d in failed for d in ds):
+                    failed[f] = "not compiled (a dependency failed: %s)" % ", ".join(d for d in ds if d in failed)[:200]
+                    changed = True
+                    try:
+                        os.remove(os.path.join(COQ, f[:-2] + ".vo"))
+                    except OSError:
+                        pass
     missing = [f for f in project_files() if not os.path.exists(os.path.join(COQ, f[:-2] + ".vo"))]
     for f in missing:
         failed.setdefault(f, "not compiled (a dependency failed)")
@@ -137,7 +174,7 @@ def property_status(pid, files=None):
     if not os.path.exists(os.path.join(COQ, pf)):
         return dict(exists=False, ok=False, theorems=[], axioms=[], error=f"{pf} missing")
     ths = theorems_in(pf)
-    if pf in b["failed"] or b["hygiene"] or b["translator_errors"]:
+    if pf in b["failed"] or b["hygiene"]:   # a failed translation makes its Generated file (and all dependents) fail
         culprit = {f: e for f, e in b["failed"].items() if not f.startswith("Properties/") or f == pf}
         return dict(exists=True, ok=False, theorems=ths, axioms=[], error=dict(failed=culprit, hygiene=b["hygiene"], translator=b["translator_errors"]))
     a = assumptions_of(pf)
